@@ -531,6 +531,26 @@ pub fn gen_props(rng: &mut Rng, ids: &[u8], sz: Sizes, mode: u8, one: usize) -> 
         m.user.push((gen_text(rng, Sizes { big: false }), gen_text(rng, Sizes { big: false })));
     }
     m.user = with_repeats(rng, std::mem::take(&mut m.user));
+    // NEAR-duplicates next to each other: same name in another ASCII case, with one character changed, with a
+    // trailing space (a decoder that interns / shares "equal" keys must compare them exactly)
+    if !m.user.is_empty() && rng.chance(1, 4) {
+        let i = rng.below(m.user.len() as u64) as usize;
+        let (n, v) = m.user[i].clone();
+        let base = if n.len() < 9 { format!("{}Content-Encoding", n) } else { n };
+        m.user[i].0 = base.clone();
+        let variant = match rng.below(4) {
+            0 => base.to_ascii_uppercase(),
+            1 => base.to_ascii_lowercase(),
+            2 => format!("{} ", base),
+            _ => {
+                let mut b = base.clone();
+                b.pop();
+                b.push('_');
+                b
+            }
+        };
+        m.user.insert(i + 1, (variant, v));
+    }
     m
 }
 
